@@ -1,9 +1,21 @@
-import json, sys
+import json, sys, glob
 pid = sys.argv[1]; wt = sys.argv[2]
 t = open('/verif/tools/seed_prompt.txt').read()
+tried = []
+for f in sorted(glob.glob(f'/verif/seeded/{pid}-*/meta.json')):
+    try:
+        m = json.load(open(f))
+        tried.append(" ".join((m.get('breaks') or '').split())[:400])
+    except Exception:
+        pass
 for l in open('/verif/properties.jsonl'):
     d = json.loads(l)
     if d['id'] == pid:
         anchors = "; ".join(f"{m['name']} ({m['where']})" for m in d['anchors']['mechanism'])
-        print(t.replace('{WT}', wt).replace('{ID}', pid).replace('{TITLE}', d['title']).replace('{STATEMENT}', d['statement'])
+        out = (t.replace('{WT}', wt).replace('{ID}', pid).replace('{TITLE}', d['title']).replace('{STATEMENT}', d['statement'])
                .replace('{QUANT}', d['quantifier']['text']).replace('{ANCHORS}', anchors))
+        if tried:
+            out += ("\n\nOther engineers have ALREADY produced the following changes for this property; do NOT repeat these mechanisms or close variants of them "
+                    "(different functions, different kinds of mistake, different clauses of the property statement are wanted — look at clauses of the statement "
+                    "that none of these touches):\n" + "\n".join(f"- {x}" for x in tried))
+        print(out)
